@@ -24,8 +24,7 @@ import (
 	"context"
 	"fmt"
 	"net/netip"
-	"os"
-	"sort"
+		"sort"
 	"strings"
 	"testing"
 
@@ -93,7 +92,6 @@ type c19Scenario struct {
 	mix      [c19NumKinds]int
 	classes  map[string]bool
 	kindsRun []string
-	excluded int
 	excluded2 int
 	knownHits map[string]int
 	wholePool int // out of 10: ClaimAffinity / ReleaseAffinity target the whole v4 pool
@@ -124,25 +122,13 @@ func c19BlockOf(addr string) string {
 	return netip.PrefixFrom(a, bits).Masked().String()
 }
 
-// c19SigPartialBlock: AutoAssign(num>1, handle) increments the handle record by the number of
-// addresses still *requested* from a block, not by the number the block actually yielded
-// (ipam.go assignFromExistingBlock: incrementHandle(..., num, ...)), so the handle record
-// over-counts whenever a block satisfies only part of the request - without any fault.
-const c19SigPartialBlock = "c19-autoassign-partial-block-handle-overcount"
+// Finding c19-autoassign-partial-block-handle-overcount (fixed in the tree, commit 7da766a):
+// AutoAssign(num>1, handle) incremented the handle record by the number of addresses still
+// *requested* from a block, not by the number the block yielded.  TestVerifC19RegressPartialBlock
+// keeps the reproducer as a regression test.
 
-// c19Known: the driver passes open known findings in $VERIF_KNOWN; $VERIF_DEV_KNOWN is the
-// same list for development runs before the lead has registered the finding.
-func c19Known(sig string) bool {
-	if ev.Known(sig) {
-		return true
-	}
-	for _, s := range strings.Split(os.Getenv("VERIF_DEV_KNOWN"), ",") {
-		if s == sig {
-			return true
-		}
-	}
-	return false
-}
+// c19Known: the driver passes the open known findings in $VERIF_KNOWN.
+func c19Known(sig string) bool { return ev.Known(sig) }
 
 func (s *c19Scenario) drawHandle(t *rapid.T, allowNil, allowFresh bool) *string {
 	opts := []string{"h1", "h2", "h3"}
@@ -214,13 +200,6 @@ func (s *c19Scenario) drawOp(t *rapid.T, client int, id string) *c19Op {
 			o.Num4 = 1
 		}
 		o.Handle = s.drawHandle(t, true, true)
-		if o.Handle != nil && c19Known(c19SigPartialBlock) && (o.Num4 > 1 || o.Num6 > 1) {
-			// Known finding: a handle-bearing request that one block satisfies only partly
-			// over-counts the handle.  A request for one address per family cannot be
-			// satisfied partly, so clamp (real callers - CNI, tunnel addresses - ask for one).
-			o.Num4, o.Num6 = min(o.Num4, 1), min(o.Num6, 1)
-			s.excluded++
-		}
 	case c19AssignIP:
 		all := append(append([]string{}, s.v4...), s.v6...)
 		o.IP = rapid.SampledFrom(all).Draw(t, "ip")
@@ -600,9 +579,6 @@ func c19Run(t *rapid.T, rec *ev.Recorder, mix [c19NumKinds]int, fw c19FaultWeigh
 	s.drain()
 
 	// Evidence.
-	for i := 0; i < s.excluded; i++ {
-		rec.Excluded(c19SigPartialBlock)
-	}
 	for i := 0; i < s.excluded2; i++ {
 		rec.Excluded(c19SigSharedHandleCache)
 	}
@@ -706,10 +682,9 @@ func TestVerifC19Scheduled(t *testing.T) {
 	})
 }
 
-// TestVerifC19ConfirmPartialBlockHandleOvercount is the deterministic reproducer of the known
-// finding c19SigPartialBlock (not matched by the unit's run pattern; the driver runs it to
-// confirm the finding still reproduces).  It FAILS while the defect is present.
-func TestVerifC19ConfirmPartialBlockHandleOvercount(t *testing.T) {
+// TestVerifC19RegressPartialBlock is the deterministic reproducer of the (fixed) finding
+// c19-autoassign-partial-block-handle-overcount, kept as a regression test.
+func TestVerifC19RegressPartialBlock(t *testing.T) {
 	ev.Quiet()
 	w := c19NewWorld([]v3.IPPool{c19Pool("pool4", c19PoolV4, 30)}, nil)
 	w.addNode("n1", nil)
